@@ -270,6 +270,7 @@ func (in *Interp) resetPath() {
 	in.observes = nil
 	in.side = map[*Cell]interface{}{}
 	in.uniqPath = nil
+	in.lazyDirty = false
 	in.now = nil
 	in.timers = nil
 	in.steps = 0
@@ -418,10 +419,19 @@ func (in *Interp) decide(c *Term) bool {
 		return t
 	}
 	nc := in.tb.Not(c)
-	ft := in.feasible(c)
-	ff := true // pc is feasible, so if c is not then !c is
-	if ft {
-		ff = in.feasible(nc)
+	var ft, ff bool
+	if in.cfg.Lazy && c.HasFP {
+		// optimistic forking: both branches are explored without a solver call; the path condition
+		// is checked for satisfiability when the path ends abnormally or reaches a cover point,
+		// and every obligation query carries the full path condition (infeasible paths are unsat).
+		ft, ff = true, true
+		in.lazyDirty = true
+	} else {
+		ft = in.feasible(c)
+		ff = true // pc is feasible, so if c is not then !c is
+		if ft {
+			ff = in.feasible(nc)
+		}
 	}
 	switch {
 	case ft && ff:
@@ -504,6 +514,12 @@ func (in *Interp) runPath(fn *ssa.Function, prefix []int) (pr PathResult) {
 					st = st[:900]
 				}
 				pr = PathResult{End: "unsupported", Msg: "engine error: " + fmt.Sprint(r) + " at " + in.safePos() + "\n" + st}
+			}
+		}
+		if in.lazyDirty && pr.End != "assume" && pr.End != "done" {
+			// the path may be infeasible (optimistic forks): settle it before reporting anything
+			if r, _ := in.query([]*Term{in.pc}, nil); r == Unsat {
+				pr = PathResult{End: "assume", Msg: "infeasible (lazy fork)"}
 			}
 		}
 		if pr.End != "assume" {
